@@ -15,8 +15,8 @@ import (
 	"com.tuntun.rangers/node/src/storage/trie"
 	"com.tuntun.rangers/node/src/zzverif/node"
 	"com.tuntun.rangers/node/src/zzverif/runner"
-	"com.tuntun.rangers/node/src/zzverif/simmap"
 	"com.tuntun.rangers/node/src/zzverif/simdisk"
+	"com.tuntun.rangers/node/src/zzverif/simmap"
 	"com.tuntun.rangers/node/src/zzverif/simrt"
 )
 
@@ -49,6 +49,10 @@ type c04Plan struct {
 	// Proposal002 fork height (balance writes not journalled there); the history itself - every
 	// snapshot and revert - runs above it. Empty: the whole plan runs above the fork height.
 	Pre []c04Op `json:"pre,omitempty"`
+	// NoBind: the base state has no native-token binding (balances then live in the storage of the zero
+	// address); the history contains snapshot / AddERC20Binding(native) / revert triples with no call
+	// in between. The binding is also cached per process, outside the journal.
+	NoBind bool `json:"nobind,omitempty"`
 }
 
 type c04 struct{}
@@ -67,11 +71,11 @@ func (c04) Budget(tier string) runner.Budget {
 
 func (c04) Describe() runner.Description {
 	return runner.Description{
-		Rule: "each case is one seeded history (5..120 calls, swarm-varied mix) on the real AccountDB over a committed seeded base state: every mutator (balance add/sub/set, nonce set/increase, storage set/remove, SetState, SetCode, CreateAccount, Suicide, AddLog, Add/SubRefund, SetTransientState, access-list address/slot, FT add/sub/set), Snapshot/RevertToSnapshot nested to depth 8, cache-warming reads, Prepare, IntermediateRoot, Commit + warm/cold reopen. In 12% of the cases the instance's life crosses a fork height: a preamble of mutators runs below Proposal002's height (balance writes not journalled), the history - every snapshot and revert - above it. Oracles: observation vector (balance, nonce, slots, code, code hash, existence, suicided flag, refund, logs, access list, transient storage over a closed universe) recorded at each snapshot must be identical right after its revert; twin run without the reverted segments must give the same intermediate and committed root. distinct_nontrivial = distinct (op-kind sequence inside reverted segments) fingerprints of histories with at least one revert that undid >=2 mutators.",
+		Rule:        "each case is one seeded history (5..120 calls, swarm-varied mix) on the real AccountDB over a committed seeded base state: every mutator (balance add/sub/set, nonce set/increase, storage set/remove, SetState, SetCode, CreateAccount, Suicide, AddLog, Add/SubRefund, SetTransientState, access-list address/slot, FT add/sub/set), Snapshot/RevertToSnapshot nested to depth 8, cache-warming reads, Prepare, IntermediateRoot, Commit + warm/cold reopen. Balance values include uint256 boundary values (a balance slot is a storage slot of the token contract). In 5% of the cases the base state has no native-token binding and the history binds it inside snapshots that are reverted at once (the binding is also cached per process, outside the journal). In 12% of the cases the instance's life crosses a fork height: a preamble of mutators runs below Proposal002's height (balance writes not journalled), the history - every snapshot and revert - above it. Oracles: observation vector (balance, nonce, slots, code, code hash, existence, suicided flag, refund, logs, access list, transient storage over a closed universe) recorded at each snapshot must be identical right after its revert; twin run without the reverted segments must give the same intermediate and committed root. distinct_nontrivial = distinct (op-kind sequence inside reverted segments) fingerprints of histories with at least one revert that undid >=2 mutators.",
 		Assumptions: []string{"the observation universe (6 addresses x 4 slots x 2 FT names) is closed under the generated operations", "Prepare/Finalise/Commit are only issued with no open snapshot, as the block executor does"},
 		Real:        []string{"storage/account (AccountDB, journal, account objects, access list, transient storage)", "storage/trie", "storage/rlp"},
 		Stub:        []string{"disk: simdisk.KV"},
-		FaultKinds:  []string{"cold_reopen", "warm_reopen", "revert", "nested_revert", "fork_height_crossed_during_instance_life"},
+		FaultKinds:  []string{"cold_reopen", "warm_reopen", "revert", "nested_revert", "fork_height_crossed_during_instance_life", "native_binding_inside_reverted_snapshot"},
 	}
 }
 
@@ -86,6 +90,8 @@ var c04Addrs = []common.Address{
 
 // the contract whose storage holds native balances (as createGenesisContract binds it)
 var c04TokenContract = common.HexToAddress("0x71d9cfd1b7adb1e8eb4c193ce6ffbe19b4aee0db")
+
+var c04AltToken = common.HexToAddress("0x9c1cbfe5328dfb1733d59a7652d0a49228c7e12c")
 
 var c04Slots = [][]byte{
 	common.HexToHash("0x01").Bytes(),
@@ -103,13 +109,29 @@ func c04GenMutator(r *simrt.Rand, uniq int) c04Op {
 	op := c04Op{K: k, A: r.Intn(len(c04Addrs)), S: r.Intn(len(c04Slots))}
 	switch k {
 	case "addbal", "subbal", "setbal", "addft", "subft", "setft", "transfer":
-		switch r.Intn(5) {
+		switch r.Intn(6) {
 		case 0:
 			op.V = "0"
 		case 1:
 			op.V = fmt.Sprintf("%d", r.Range(1, 1000))
 		case 2:
 			op.V = fmt.Sprintf("%d000000000000000000", r.Range(1, 99))
+		case 3:
+			if k == "setbal" {
+				// a balance slot is a storage slot of the token contract: any uint256 can be in it
+				v := new(big.Int).SetBytes(r.Bytes(32))
+				switch r.Intn(4) {
+				case 0:
+					v.SetBit(v, 255, 1)
+				case 1:
+					v.SetBit(v, 255, 0).SetBit(v, 254, 1)
+				case 2:
+					v.Sub(new(big.Int).Lsh(big.NewInt(1), 256), big.NewInt(int64(r.Range(1, 40))))
+				}
+				op.V = v.String()
+				break
+			}
+			fallthrough
 		default:
 			op.V = fmt.Sprintf("%d", r.U64()%1000000000000)
 		}
@@ -168,9 +190,12 @@ func (c04) Gen(seed uint64, tier string) json.RawMessage {
 	pRead := r.Float() * 0.15
 	pTop := r.Float() * 0.08
 	depth := 0
+	p.NoBind = r.Chance(0.05)
 	for i := 0; i < n; i++ {
 		x := r.Float()
 		switch {
+		case p.NoBind && x > 0.9 && depth < 8:
+			p.Ops = append(p.Ops, c04Op{K: "snap"}, c04Op{K: "bind"}, c04Op{K: "revert", S: depth})
 		case x < pSnap && depth < 8:
 			p.Ops = append(p.Ops, c04Op{K: "snap"})
 			depth++
@@ -245,6 +270,8 @@ func (ru *c04Run) apply(op c04Op) {
 		st.CreateAccount(a)
 	case "suicide":
 		st.Suicide(a)
+	case "bind":
+		st.AddERC20Binding(common.BLANCE_NAME, c04AltToken, 3, 18)
 	case "addlog":
 		st.AddLog(&types.Log{Address: a, Data: []byte{byte(op.S)}})
 	case "addrefund":
@@ -475,7 +502,15 @@ func (c04) Exec(raw json.RawMessage, stt *simrt.Stats, log *simrt.Log) *simrt.Vi
 	// what every genesis does first: the native-token contract and its binding
 	base.st.SetCode(c04TokenContract, []byte{0x60, 0x00, 0x60, 0x00, 0xfd})
 	base.st.SetNonce(c04TokenContract, 1)
-	base.st.AddERC20Binding(common.BLANCE_NAME, c04TokenContract, 3, 18)
+	account.SimResetProcessCaches()
+	if !p.NoBind {
+		base.st.AddERC20Binding(common.BLANCE_NAME, c04TokenContract, 3, 18)
+	} else {
+		// without a binding the balances live in the zero address's storage: make that account an
+		// ordinary existing one, as the token contract is
+		base.st.SetNonce(common.Address{}, 1)
+		stt.Fault("native_binding_inside_reverted_snapshot")
+	}
 	for _, op := range p.Base {
 		base.apply(op)
 	}
